@@ -10,7 +10,7 @@ import time
 
 VERIF = os.path.dirname(os.path.dirname(os.path.abspath(__file__)))
 LEAN_DIR = os.path.join(VERIF, "lean")
-REPO = "/repo"
+REPO = os.environ.get("VERIF_REPO", "/repo")      # overridden only by harness/retrial_lanes.sh (parallel re-trials)
 sys.path.insert(0, os.path.join(VERIF, "harness"))
 
 ALLOWED_AXIOMS = {"propext", "Classical.choice", "Quot.sound"}
